@@ -1,4 +1,3 @@
 package main
 
-func (r *Run) DoBatch(b *BatchSpec) {}
-func (r *Run) Drain()               {}
+func (r *Run) Drain() {}
